@@ -8,10 +8,12 @@
 #include <fcntl.h>
 #include <sys/socket.h>
 #include <sys/un.h>
+#include <netinet/in.h>
+#include <arpa/inet.h>
 #include "pool.h"
 #include "threadpool/threadpool_task.h"
 
-enum { K_RECV = 0, K_SEND, K_DGRAM, K_ACCEPT, K_CONNECT, K_NKINDS };
+enum { K_RECV = 0, K_SEND, K_DGRAM, K_ACCEPT, K_CONNECT, K_CONNEX, K_NKINDS };
 enum { ST_NONE = 0, ST_ARMED, ST_PARKED, ST_STOPPED, ST_DEAD };
 enum { A_CONTINUE = 0, A_PARK, A_STOP, A_DESTROY };
 #define MAX_TASK 2
@@ -55,6 +57,17 @@ typedef struct tk {
 	int        conn_expect_ok;
 	uint64_t   started_at;
 	int        faults_seen;
+	/* connect_ex */
+	tp_task_conn_prms_t prms;
+	struct sockaddr_storage addrs[3];
+	int        ep_mode[3];
+	uint64_t   ep_delay_ns[3];
+	int        cx_attempts[3];      /* connect() calls per address */
+	uint64_t   cx_last_attempt[3];
+	uint64_t   cx_first_attempt, cx_last_any;
+	int        cx_total_attempts;
+	int        cx_success, cx_final_fail, cx_fail_reports;
+	int        cx_created;
 	int        starting;            /* inside tp_task_start_ex(0,...): a callback now is the direct first I/O, nothing is scheduled yet */
 } tk;
 
@@ -286,6 +299,67 @@ static int connect_cb(tp_task_p tptask, int error, void *udata) {
 	return TP_TASK_CB_NONE;
 }
 
+
+/* ------------------------------------------------------------------ connect_ex */
+static void connex_on_connect(int port, int mode, uint64_t now) {
+	int slot = (port - 7000) / 10, ai = (port - 7000) % 10;
+	tk *t;
+	(void)mode;
+	if (slot < 0 || slot >= MAX_TASK || ai < 0 || ai >= 3) return;
+	t = &T[slot];
+	if (t->kind != K_CONNEX) return;
+	t->cx_attempts[ai]++; t->cx_total_attempts++;
+	if (!t->cx_first_attempt) t->cx_first_attempt = now ? now : 1;
+	if (t->cx_success || t->cx_final_fail) sim_violation("io-connex-after-end", "task %d: a new connect attempt (address %d) after the final result was reported", slot, ai);
+	if (t->prms.time_limit && now > t->started_at + t->prms.time_limit * 1000000ull + 1000000ull)
+		sim_violation("io-connex-limit", "task %d: connect attempt to address %d at +%llu ms although the time limit is %llu ms", slot, ai, (unsigned long long)((now - t->started_at) / 1000000ull), (unsigned long long)t->prms.time_limit);
+	if (t->prms.max_tries) {
+		int rr = (t->prms.flags & TP_TASK_CONNECT_F_ROUND_ROBIN) != 0;
+		if (t->cx_attempts[ai] > (int)t->prms.max_tries + (rr ? 0 : 0))
+			sim_violation("io-connex-limit", "task %d: address %d tried %d times, max_tries is %llu", slot, ai, t->cx_attempts[ai], (unsigned long long)t->prms.max_tries);
+	}
+	if (t->prms.retry_delay && t->cx_attempts[ai] > 1 && now < t->cx_last_attempt[ai] + t->prms.retry_delay * 1000000ull)
+		sim_violation("io-connex-delay", "task %d: address %d retried after %llu us, retry delay is %llu ms", slot, ai, (unsigned long long)((now - t->cx_last_attempt[ai]) / 1000ull), (unsigned long long)t->prms.retry_delay);
+	if ((t->prms.flags & TP_TASK_CONNECT_F_INITIAL_DELAY) && t->cx_total_attempts == 1 && now < t->started_at + t->prms.retry_delay * 1000000ull)
+		sim_violation("io-connex-delay", "task %d: first attempt at +%llu us although an initial delay of %llu ms was requested", slot, (unsigned long long)((now - t->started_at) / 1000ull), (unsigned long long)t->prms.retry_delay);
+	t->cx_last_attempt[ai] = now; t->cx_last_any = now;
+	sim_probe("c16.connex_attempt");
+}
+
+static int connex_cb(tp_task_p tptask, int error, tp_task_conn_prms_p prms, size_t addr_index, void *udata) {
+	tk *t = udata;
+	if ((uintptr_t)udata < (uintptr_t)&T[0] || (uintptr_t)udata >= (uintptr_t)&T[MAX_TASK]) { sim_violation("io-bad-arg", "connect_ex callback with unknown user data"); return TP_TASK_CB_NONE; }
+	if (!own_thread(t) && t->cx_created) { sim_violation("io-wrong-thread", "task %d: connect_ex callback ran on a thread other than the task's", t->slot); return TP_TASK_CB_NONE; }
+	if (t->state == ST_DEAD) { sim_violation("io-callback-after-destroy", "task %d: connect_ex callback after destroy", t->slot); return TP_TASK_CB_NONE; }
+	t->ncb++;
+	sim_hash_u64(0xcbe0000ull + ((uint64_t)t->slot << 12) + ((uint64_t)(error & 0xff) << 4) + addr_index);
+	sim_log("task %d connect_ex cb error=%d addr=%zu", t->slot, error, addr_index);
+	if (tptask != t->task && t->cx_created) { sim_violation("io-bad-arg", "task %d: connect_ex callback for another task", t->slot); return TP_TASK_CB_NONE; }
+	if (prms != &t->prms) { sim_violation("io-bad-arg", "task %d: connect_ex callback with other parameters", t->slot); return TP_TASK_CB_NONE; }
+	if (t->cx_success || t->cx_final_fail) { sim_violation("io-connex-after-end", "task %d: connect_ex callback (error %d) after the final result was already reported", t->slot, error); return TP_TASK_CB_NONE; }
+	if (0 == error) {
+		if (addr_index >= t->prms.addrs_count) { sim_violation("io-connex-result", "task %d: connected to address index %zu of %zu", t->slot, addr_index, t->prms.addrs_count); return TP_TASK_CB_NONE; }
+		if (t->ep_mode[addr_index] != SIM_NET_ACCEPT && t->ep_mode[addr_index] != SIM_NET_IMMEDIATE_OK) {
+			sim_violation("io-connex-result", "task %d: success reported for address %zu which never accepts (mode %d)", t->slot, addr_index, t->ep_mode[addr_index]);
+			return TP_TASK_CB_NONE;
+		}
+		if (t->cx_attempts[addr_index] == 0) { sim_violation("io-connex-result", "task %d: success reported for address %zu which was never tried", t->slot, addr_index); return TP_TASK_CB_NONE; }
+		t->cx_success = 1; sim_probe("c16.connex_success");
+		t->state = ST_STOPPED;
+		return TP_TASK_CB_NONE;
+	}
+	if (-1 == error) { t->cx_final_fail = 1; sim_probe("c16.connex_final_failure"); t->state = ST_STOPPED; return TP_TASK_CB_NONE; }
+	/* a failed attempt, reported because CB_AFTER_EVERY_READ was requested */
+	t->cx_fail_reports++;
+	if (!(t->tflags & TP_TASK_F_CB_AFTER_EVERY_READ)) { sim_violation("io-connex-result", "task %d: failed attempt (error %d) reported although reports were not requested", t->slot, error); return TP_TASK_CB_NONE; }
+	if (error == ETIMEDOUT) {
+		if (!t->timeout_ms || sim_now() < t->cx_last_any + t->timeout_ms * 1000000ull) { sim_violation("io-timeout", "task %d: connect attempt timed out after %llu us, timeout is %llu ms", t->slot, (unsigned long long)((sim_now() - t->cx_last_any) / 1000ull), (unsigned long long)t->timeout_ms); return TP_TASK_CB_NONE; }
+		sim_probe("c16.connex_attempt_timeout");
+	}
+	if (script(t, t->ncb) % 100 < 10) { t->cx_final_fail = 1; t->state = ST_STOPPED; sim_probe("c16.connex_user_gave_up"); return TP_TASK_CB_NONE; } /* the user gives up */
+	return TP_TASK_CB_CONTINUE;
+}
+
 /* ------------------------------------------------------------------ ops */
 static void buf_setup(tk *t, const item_t *it) {
 	size_t size = (size_t)item_get(it, "size", 256), off = (size_t)item_get(it, "off", 0), tr = (size_t)item_get(it, "tr", 0);
@@ -315,6 +389,49 @@ static void op_task(const item_t *it) {
 	buf_setup(t, it);
 	t->last_arm = sim_now(); t->started_at = sim_now();
 	switch (t->kind) {
+	case K_CONNEX: {
+		int na = 1 + (int)item_get(it, "na", 0) % 3;
+		memset(&t->prms, 0, sizeof(t->prms));
+		for (int i = 0; i < na; i++) {
+			struct sockaddr_in *sin = (struct sockaddr_in *)(void *)&t->addrs[i];
+			char key[8];
+			memset(sin, 0, sizeof(*sin));
+			sin->sin_family = AF_INET; sin->sin_port = htons((uint16_t)(7000 + slot * 10 + i)); sin->sin_addr.s_addr = htonl(0x7f000001u);
+			snprintf(key, sizeof(key), "m%d", i); t->ep_mode[i] = 1 + (int)item_get(it, key, 0) % 5;
+			snprintf(key, sizeof(key), "d%d", i); t->ep_delay_ns[i] = (uint64_t)item_get(it, key, 0) * 1000ull;
+			sim_net_endpoint(7000 + slot * 10 + i, t->ep_mode[i], t->ep_delay_ns[i]);
+		}
+		t->prms.addrs = t->addrs; t->prms.addrs_count = (size_t)na;
+		t->prms.retry_delay = (uint64_t)item_get(it, "retry", 0);
+		t->prms.max_tries = (uint64_t)item_get(it, "tries", 1);
+		t->prms.time_limit = (uint64_t)item_get(it, "tlimit", 0);
+		t->prms.flags = (uint32_t)item_get(it, "cflags", 0) & 3u;
+		sim_on_connect_hook = connex_on_connect;
+		t->tflags = (uint32_t)item_get(it, "flags", 0) & TP_TASK_F_CB_AFTER_EVERY_READ;
+		t->state = ST_ARMED;
+		t->started_at = sim_now();
+		{
+			int bad = ((t->prms.flags & TP_TASK_CONNECT_F_INITIAL_DELAY) && !t->prms.retry_delay) ||
+			    (t->prms.time_limit && (!t->timeout_ms || t->timeout_ms >= t->prms.time_limit || t->prms.retry_delay >= t->prms.time_limit));
+			rc = tp_task_connect_ex_create(tpt, t->tflags, t->timeout_ms, &t->prms, connex_cb, t, &t->task);
+			t->cx_created = 1;
+			sim_log("task %d connect_ex na=%d timeout=%llu retry=%llu tries=%llu tlimit=%llu cflags=%x -> %d", slot, na, (unsigned long long)t->timeout_ms, (unsigned long long)t->prms.retry_delay,
+			    (unsigned long long)t->prms.max_tries, (unsigned long long)t->prms.time_limit, t->prms.flags, rc);
+			if (bad) {
+				if (rc != EINVAL) sim_violation("io-connex-result", "task %d: malformed connect_ex parameters were not refused with EINVAL (rc %d)", slot, rc);
+				t->state = ST_NONE; sim_probe("c16.connex_malformed_refused");
+				return;
+			}
+			if (0 != rc) {
+				/* creation may fail right away when nothing can be tried: the final failure must then have been told */
+				if (rc == -1 || t->cx_final_fail || t->cx_fail_reports || t->cx_total_attempts) { t->state = ST_DEAD; t->task = NULL; sim_probe("c16.connex_failed_at_create"); sim_mark_interesting(); return; }
+				sim_violation("io-start-failed", "task %d: tp_task_connect_ex_create failed with %d", slot, rc);
+				return;
+			}
+		}
+		sim_mark_interesting();
+		return;
+	}
 	case K_RECV: case K_SEND: case K_CONNECT:
 		if (0 != socketpair(AF_UNIX, SOCK_STREAM | SOCK_NONBLOCK | SOCK_CLOEXEC, 0, sv)) { sim_violation("sim-limit", "socketpair failed"); return; }
 		break;
@@ -388,7 +505,7 @@ static void op_task(const item_t *it) {
 static void op_peer(const item_t *it, const char *k) {
 	int slot = (int)item_get(it, "t", 0) % MAX_TASK;
 	tk *t = &T[slot];
-	if (t->state == ST_NONE || (t->peer < 0 && t->kind != K_ACCEPT)) return;
+	if (t->state == ST_NONE || t->kind == K_CONNEX || (t->peer < 0 && t->kind != K_ACCEPT)) return;
 	if (0 == strcmp(k, "psend")) {
 		size_t n = (size_t)item_get(it, "n", 1);
 		uint8_t tmp[1024];
@@ -454,6 +571,7 @@ static void op_ctl(const item_t *it, const char *k) {
 	tk *t = &T[slot];
 	int rc;
 	if (t->state == ST_NONE || t->state == ST_DEAD || !t->task || t->in_cb) return;
+	if (t->kind == K_CONNEX && 0 != strcmp(k, "destroy")) return;
 	if (0 == strcmp(k, "enable")) {
 		if (t->state != ST_PARKED) return;
 		t->expect_silence = 0; t->state = ST_ARMED; t->last_arm = sim_now();
@@ -554,11 +672,11 @@ static void c16_gen(plan_t *p, rng_t *r, int tier) {
 	gen_sched(p, r, tier, 1);
 	item_set(&p->sched, "budget", 250000);
 	for (int s = 0; s < ntasks; s++) {
-		static const int kw[] = { K_RECV, K_RECV, K_RECV, K_RECV, K_SEND, K_SEND, K_DGRAM, K_ACCEPT, K_CONNECT };
+		static const int kw[] = { K_RECV, K_RECV, K_RECV, K_RECV, K_SEND, K_SEND, K_DGRAM, K_ACCEPT, K_CONNECT, K_CONNEX, K_CONNEX };
 		static const uint16_t efl[] = { 0, 0, TP_F_DISPATCH, TP_F_DISPATCH, TP_F_ONESHOT };
 		static const int sizes[] = { 16, 40, 64, 256, 300, 1024, 4096 };
 		static const int tmo[] = { 0, 0, 1, 5, 20, 100, 1000 };
-		int kind = kw[rng_below(r, 9)];
+		int kind = kw[rng_below(r, 11)];
 		size_t size = (size_t)sizes[rng_below(r, 7)], off = rng_chance(r, 400) ? (size_t)rng_below(r, size / 2 + 1) : 0, tr = rng_chance(r, 400) ? (size_t)rng_range(r, 1, (int64_t)(size - off)) : 0;
 		uint64_t timeout = (uint64_t)tmo[rng_below(r, 7)];
 		op_t *op = plan_add_op(p, "task");
@@ -576,7 +694,30 @@ static void c16_gen(plan_t *p, rng_t *r, int tier) {
 		item_set(&op->it, "sfio", rng_chance(r, 700));
 		if (kind == K_RECV && rng_chance(r, 400)) item_set(&op->it, "pre", (long long)rng_range(r, 1, 400));
 		if (kind == K_CONNECT) item_set(&op->it, "pending", rng_chance(r, 700));
-		gen_peer_script(p, r, tier, s, kind, s, timeout, tr ? tr : size - off);
+		if (kind == K_CONNEX) {
+			static const int tmos[] = { 0, 2, 5, 20, 50 };
+			static const int rts[] = { 0, 0, 1, 3, 10 };
+			int na = (int)rng_below(r, 3), any_black = 0;
+			long long tmo = tmos[rng_below(r, 5)];
+			item_set(&op->it, "na", na);
+			for (int i = 0; i <= na; i++) {
+				char key[8];
+				int m = (int)rng_below(r, 5);
+				snprintf(key, sizeof(key), "m%d", i); item_set(&op->it, key, m);
+				if (m + 1 == SIM_NET_BLACKHOLE) any_black = 1;
+				snprintf(key, sizeof(key), "d%d", i); item_set(&op->it, key, (long long)rng_range(r, 1, 30000)); /* us */
+			}
+			if (any_black && tmo == 0) tmo = 5;
+			item_set(&op->it, "timeout", tmo);
+			item_set(&op->it, "retry", rts[rng_below(r, 5)]);
+			item_set(&op->it, "tries", 1 + (long long)rng_below(r, 3));
+			item_set(&op->it, "tlimit", rng_chance(r, 350) ? (long long)rng_range(r, 3, 120) : 0);
+			item_set(&op->it, "cflags", (long long)rng_below(r, 4));
+			if (rng_chance(r, 100)) item_set(&op->it, "tries", 0); /* unlimited rounds: only with a time limit or an accepting address */
+			if (item_get(&op->it, "tries", 1) == 0 && !item_get(&op->it, "tlimit", 0)) { item_set(&op->it, "m0", SIM_NET_ACCEPT - 1); item_set(&op->it, "d0", 100); if (!tmo) item_set(&op->it, "timeout", 5); }
+		}
+		if (kind != K_CONNEX) gen_peer_script(p, r, tier, s, kind, s, timeout, tr ? tr : size - off);
+		else { op_t *w = plan_add_op(p, "wait"); item_set(&w->it, "actor", s); item_set(&w->it, "ns", (long long)rng_range(r, 1000000, 400000000)); }
 		/* control calls on the task's thread at scripted times */
 		{
 			int nc = rng_chance(r, 500) ? 0 : (int)rng_below(r, 4);
@@ -620,6 +761,10 @@ static void *c16_root(void *arg) {
 	{
 		uint64_t mx = 0;
 		for (int s = 0; s < MAX_TASK; s++) if (T[s].state != ST_NONE && T[s].timeout_ms > mx) mx = T[s].timeout_ms;
+		for (int s = 0; s < MAX_TASK; s++) if (T[s].state != ST_NONE && T[s].kind == K_CONNEX) {
+			uint64_t w = (T[s].timeout_ms + T[s].prms.retry_delay + 40) * 12 + T[s].prms.time_limit;
+			if (w > mx) mx = w;
+		}
 		sim_wait_idle(mx * 4000000ull + 20000000ull);
 	}
 	if (sim_faults_fired() > 0) for (int s = 0; s < MAX_TASK; s++) T[s].faults_seen = 1;
@@ -628,6 +773,16 @@ static void *c16_root(void *arg) {
 		if (t->state == ST_NONE) continue;
 		check_canaries(t);
 		if (sim_violated()) break;
+		if (t->kind == K_CONNEX) {
+			/* termination: with finite tries or a time limit (or an accepting address) the final word must have been said */
+			int finite = t->prms.max_tries != 0 || t->prms.time_limit != 0;
+			if (t->state == ST_ARMED && finite && !t->cx_success && !t->cx_final_fail) {
+				sim_violation("io-connex-hang", "task %d: connect_ex (tries %llu, time limit %llu ms, timeout %llu ms, retry %llu ms, flags %x) reported neither success nor final failure by quiescence (%d attempts)", s,
+				    (unsigned long long)t->prms.max_tries, (unsigned long long)t->prms.time_limit, (unsigned long long)t->timeout_ms, (unsigned long long)t->prms.retry_delay, t->prms.flags, t->cx_total_attempts);
+				break;
+			}
+			continue;
+		}
 		if (t->state != ST_ARMED) continue;
 		/* liveness: an armed task must have been served */
 		if (t->kind == K_RECV && !(t->tflags & TP_TASK_F_CB_AFTER_EVERY_READ)) {
